@@ -139,6 +139,11 @@ def gen_heal(rng, i):
     rounds = 15 + max(2 * tot["B"] // rbuf["A"], 2 * tot["A"] // rbuf["B"])
     for _ in range(rounds):
         ops += ["Q40", "rA200000", "rB200000"]
+    # every segment that was in flight when the outage began is a retransmission: Karn's rule keeps the backed-off RTO (up to the 60 s ceiling) until
+    # a segment sent once is acknowledged, and each of them waits for its own time-out - one more minute per segment of data (the property's bound is
+    # "the back-off ceiling and the amount of data"; 3 of 20000 thorough-tier programs needed it)
+    for _ in range(2 + max(tot["A"], tot["B"]) // 1284):
+        ops += ["Q240", "rA200000", "rB200000"]
     # after the close the readers keep reading in rounds of 60 s (the back-off ceiling: data flushed past a closed window at close time is
     # retransmitted with whatever RTO the outage left behind; 20 s were too few, false alarm under VERIF_SEED=5)
     # the graceful close, for half of the cases with data written immediately before it (still unacknowledged when the FIN is queued: Nagle)
